@@ -130,6 +130,7 @@ func runC02(r *Run, rng *Rng, thorough bool) {
 			tamperCase(r, cls+"untampered", known, tok, cb.k.id)
 			tamperCase(r, cls+"wrong-key", known, tok, ok2.id)
 			tamperCase(r, cls+"wrong-key-family", known, tok, ks[(cb.k.id+4)%8].id)
+			relatedKeys(r, cls, tok, cb.k.pub)
 			// every single-bit flip (quick: every bit of the first 24 bytes and of the signature tail, every 7th elsewhere)
 			nbits := len(tok) * 8
 			for i := 0; i < nbits; i++ {
